@@ -282,6 +282,7 @@ C10_THMS = ["thm_c10_registration_request", "thm_c10_registration_response", "th
 VACUITY_THEOREMS |= set(C10_THMS) | {"thm_c13_server_setup_external"}
 
 PROPS["C10"] = {
+    "always_generators": ["c10serde"],
     "alternatives": [{
         "name": "strict-canonical",
         "clauses": star(DECODERS + ENCODERS + [ER + "check_slice_size", ER + "check_slice_size_atleast", O + "MaskedResponse::deserialize", O + "MaskedResponse::serialize",
